@@ -518,7 +518,7 @@ skiplist_rm(struct qb_map *map, const char *key)
 	 * used level is found. Unused levels can occur if @found_node had the
 	 * highest level.
 	 */
-	for (level = list->level; level >= SKIPLIST_LEVEL_MIN; level--) {
+	for (level = list->level; level > SKIPLIST_LEVEL_MIN; level--) {
 		if (list->header->forward[level])
 			break;
 
